@@ -227,7 +227,7 @@ def build(N, roles):
                     f"clock_at_validate = {k.ctx('logical_clock')}; in_validate = 1; __CPROVER_atomic_end();")
                 H.call("Scheduler::validate", [H.ref(S), VUnit(), VLoc(Loc(H.nav(inner, "Validation.0"), []))], t2)
                 H.c("in_validate = 0;")
-                H.assert_(f"!(wasv{ti} && {k.status('vt%d' % ti)} == {ST['Conflict']}) || bene_invalidated == 1",
+                H.assert_(f"!(wasv{ti} && {k.status('vt%d' % ti)} == {ST['Conflict']}) || bene_invalidated >= 1",
                           "a validation that ends in Conflict retracts the incarnation's fee-recipient history entry (Beneficiary::invalidate), whatever its write set")
                 H.assert_(f"!(wasv{ti} && {k.status('vt%d' % ti)} == {ST['Unconfirmed']}) || !scan_before_ts",
                           "a validation that ends Unconfirmed drew its logical timestamp before it looked at the multi-version memory "
@@ -421,8 +421,8 @@ def build_vconf(N, L):
         H.call("Scheduler::validate", [H.ref(S), VUnit(), VAgg([H.val("T"), H.val("2")])], t2)
         H.assert_(f"!{H.lv(S, 'abort')}", "a consistent validation never aborts the block")
         H.assert_(f"{k.status('T')} == {ST['Conflict']} || {k.status('T')} == {ST['Unconfirmed']}", "validation ends Conflict or Unconfirmed")
-        H.assert_(f"!({k.status('T')} == {ST['Conflict']}) || bene_invalidated == 1",
-                  "a failed validation retracts the incarnation's fee-recipient history entry (Beneficiary::invalidate exactly once) -- also when its write set is empty")
+        H.assert_(f"!({k.status('T')} == {ST['Conflict']}) || bene_invalidated >= 1",
+                  "a failed validation retracts the incarnation's fee-recipient history entry (Beneficiary::invalidate is called) -- also when its write set is empty")
         for l in range(L):
             H.assert_(f"!({k.status('T')} == {ST['Conflict']} && wold[{l}] && {H.lv(k.mv, 'data.present', [l])} && {H.lv(k.mv, 'data.val.present.e', [l, 'T'])}) || {H.lv(k.mv, 'data.val.vals.e.estimate', [l, 'T'])}",
                       f"... and marks what it wrote to location {l} as an estimate")
@@ -458,7 +458,7 @@ def specs(tier):
                     desc="real next -> validate with a ghost finality coordinator pass (finalise head / examine new head / park) injected atomically at any visible operation: "
                          "a coordinator that parked on head k is notified by the validation that publishes k", bounds={"n": N, "locations": 1, "threads": 2, "context_switches": 2}))
     out.append(Spec("validate_conflict_retracts_n3_l2", build_vconf(N, 2), cfg=cfg_vconf(N, 2), unwind=N + 3, timeout=1800,
-                    desc="real validate over two locations, any read set / write set / MV memory: a failed validation calls Beneficiary::invalidate exactly once and "
+                    desc="real validate over two locations, any read set / write set / MV memory: a failed validation calls Beneficiary::invalidate and "
                          "marks its writes as estimates, whatever the write set", bounds={"n": N, "locations": 2, "threads": 1}))
     out.append(Spec("rewind_on_new_write_n3_l2", build_rewind(N, 2), cfg=cfg_rewind(N, 2), unwind=N + 3, timeout=1800,
                     desc="real execute_task over TWO locations, previous and new write sets any subsets: a location not written before (incl. a moved write of the same size) "
